@@ -262,3 +262,138 @@ def search_numjac(seed, n):
                 if not dc <= 1e-5 * (1 + abs(r2.final_chi2)):
                     return dict(kind="numjac", what="graphs with numerical and analytic Jacobians reach different optima", match="numjac-optimum", chi2_num=float(r1.final_chi2), chi2_ana=float(r2.final_chi2), desc=desc), ev, worst
     return None, ev, worst
+
+
+# ----------------------------------------------------------------------------- C04
+
+
+def search_linear(seed, n):
+    """R^2 / R^3 graphs: optimize() == the weighted-least-squares optimum from numpy.linalg.lstsq, for any initial guess"""
+    ev = 0
+    skipped = 0
+    for k in range(n):
+        rng = Rng(seed, "c04search|%d" % k)
+        world = rng.choice(["r2", "r3"])
+        g, desc = G.make_graph(rng, world=world, nv=rng.randrange(2, 12), noise=0.3, custom=False, fix="random", well_posed=True)
+        # far initial guess
+        scale = rng.choice([1.0, 1e3, 1e6])
+        for v in desc["vertices"]:
+            if not v["fixed"]:
+                v["vals"] = [x + rng.gauss(0, scale) for x in v["vals"]]
+        g = G.rebuild(desc)
+        dim = 2 if world == "r2" else 3
+        idx = {v.id: i for i, v in enumerate(g._vertices)}
+        nV = len(g._vertices)
+        rows, rhs = [], []
+        for e in g._edges:
+            L = np.linalg.cholesky(np.asarray(e.information)).T  # Omega = L^T L
+            i, j = idx[e.vertex_ids[0]], idx[e.vertex_ids[1]]
+            A = np.zeros((dim, dim * nV))
+            if type(e).__name__ == "EdgeOdometry":
+                # e = z - (p_j - p_i)
+                A[:, dim * i : dim * i + dim] = np.eye(dim)
+                A[:, dim * j : dim * j + dim] = -np.eye(dim)
+                c = np.asarray(e.estimate)
+            else:
+                # e = (p_j - (p_i + off)) - z
+                A[:, dim * i : dim * i + dim] = -np.eye(dim)
+                A[:, dim * j : dim * j + dim] = np.eye(dim)
+                c = -np.asarray(e.offset) - np.asarray(e.estimate)
+            rows.append(L @ A)
+            rhs.append(-L @ c)
+        A = np.vstack(rows)
+        y = np.concatenate(rhs)
+        free = [i for i, v in enumerate(g._vertices) if not v.fixed]
+        fixed = [i for i, v in enumerate(g._vertices) if v.fixed]
+        x_fixed = np.zeros(dim * nV)
+        for i in fixed:
+            x_fixed[dim * i : dim * i + dim] = np.asarray(g._vertices[i].pose)
+        cols = np.concatenate([np.arange(dim * i, dim * i + dim) for i in free]) if free else np.array([], dtype=int)
+        r = quiet_optimize(g, tol=1e-9, max_iter=10, fix_first_pose=False)
+        ev += 1
+        if len(cols) == 0:
+            continue
+        Af = A[:, cols]
+        if np.linalg.matrix_rank(Af) < Af.shape[1] or np.linalg.cond(Af) > 1e6:
+            skipped += 1
+            continue
+        xf, *_ = np.linalg.lstsq(Af, y - A @ x_fixed, rcond=None)
+        x = x_fixed.copy()
+        x[cols] = xf
+        chi_min = float(np.sum((A @ x - y) ** 2))
+        got = np.concatenate([np.asarray(v.pose) for v in g._vertices])
+        sc = 1 + np.max(np.abs(x))
+        w = lambda what, **kw: dict(kind="linear", what=what, match="linear:" + what, initial_scale=scale, desc=desc, **kw)
+        if not np.max(np.abs(got - x)) <= 1e-6 * sc * max(1.0, scale * 1e-6):
+            return w("optimum", expected=x.tolist(), got=got.tolist()), ev, skipped
+        if not abs(float(r.final_chi2) - chi_min) <= 1e-6 * (1 + chi_min) * max(1.0, scale * 1e-3):
+            return w("final_chi2", expected=chi_min, got=float(r.final_chi2)), ev, skipped
+        if not r.converged:
+            return w("converged", num_iterations=r.num_iterations), ev, skipped
+    return None, ev, skipped
+
+
+# ----------------------------------------------------------------------------- C05 (exploration: the quantitative half)
+
+# calibrated neighbourhood (DESIGN.md §5 C05): initial-guess perturbation sigma (box-plus units) and measurement noise
+# measured here (tools/dev/calibrate_c05.py, 150 random-walk graphs per cell, tol=1e-8, max_iter=100): zero failures for
+# 2d init <= 0.4 (first failure at 0.8), 3d init <= 0.1 (failures from 0.2), measurement noise up to 0.05 in both;
+# the bounds below are half of the largest all-pass values.
+CAL = {"2d": dict(init=0.2, meas=0.025), "3d": dict(init=0.05, meas=0.025)}
+
+
+def newton_decrement(g):
+    H, b = dense_normal_equations(g)
+    free = np.concatenate([np.arange(v.gradient_index, v.gradient_index + v.pose.COMPACT_DIMENSIONALITY) for v in g._vertices if not v.fixed] or [np.array([], dtype=int)]).astype(int)
+    if len(free) == 0:
+        return 0.0, 1.0
+    Hf, bf = H[np.ix_(free, free)], b[free]
+    cond = np.linalg.cond(Hf)
+    if not cond < 1e12:
+        return None, cond
+    return float(bf @ np.linalg.solve(Hf, bf)), cond
+
+
+def search_convergence(seed, n):
+    ev = 0
+    stats = dict(noise_free=0, noisy=0, skipped_ill_conditioned=0, worst_decrement_ratio=0.0)
+    for k in range(n):
+        rng = Rng(seed, "c05search|%d" % k)
+        world = rng.choice(["2d", "3d"])
+        cal = CAL[world]
+        noise_free = rng.random() < 0.4
+        g, desc = G.make_graph(rng, world=world, nv=rng.randrange(3, 14), noise=cal["init"] * rng.uniform(0.2, 1.0), meas_noise=0.0 if noise_free else cal["meas"] * rng.uniform(0.2, 1.0), custom=False, fix="first", ids="plain", walk=True)
+        # well-posed: the anchor (first vertex, fixed by fix_first_pose) must be a pose, not a landmark point
+        i0 = next(i for i, v in enumerate(desc["vertices"]) if v["cls"].startswith("PoseSE"))
+        desc["vertices"][0], desc["vertices"][i0] = desc["vertices"][i0], desc["vertices"][0]
+        g = G.rebuild(desc)
+        tol = 10 ** rng.uniform(-10, -4)
+        chi0 = float(g.calc_chi2())
+        r = quiet_optimize(g, tol=tol, max_iter=100, fix_first_pose=True)
+        ev += 1
+        w = lambda what, **kw: dict(kind="convergence", what=what, match="convergence:" + what, world=world, tol=tol, noise_free=noise_free, desc=desc, **kw)
+        if not math.isfinite(float(r.final_chi2)):
+            return w("non-finite final chi2"), ev, stats
+        if not float(r.final_chi2) <= chi0 * (1 + 1e-9) + 1e-12:
+            return w("final chi2 exceeds initial chi2", initial=chi0, final=float(r.final_chi2)), ev, stats
+        if not r.converged:
+            return w("did not converge within 100 iterations", num_iterations=r.num_iterations), ev, stats
+        lam2, cond = newton_decrement(g)
+        if lam2 is None:
+            stats["skipped_ill_conditioned"] += 1
+            continue
+        bound = 20 * tol * max(float(r.final_chi2), 1e-12) + 1e-10
+        stats["worst_decrement_ratio"] = max(stats["worst_decrement_ratio"], lam2 / bound)
+        if not lam2 <= bound:
+            return w("Newton decrement above the tolerance scale", decrement=lam2, bound=bound, final_chi2=float(r.final_chi2)), ev, stats
+        if noise_free:
+            stats["noise_free"] += 1
+            # relative poses of the ground truth are reproduced (the anchor is the first vertex, possibly perturbed: compare edges)
+            if not float(r.final_chi2) <= 1e-10:
+                return w("noise-free measurements not reproduced: chi2 > 0", final_chi2=float(r.final_chi2)), ev, stats
+            for e in g._edges:
+                if np.max(np.abs(np.asarray(e.calc_error()))) > 1e-6:
+                    return w("noise-free relative pose not reproduced", error=np.asarray(e.calc_error()).tolist()), ev, stats
+        else:
+            stats["noisy"] += 1
+    return None, ev, stats
